@@ -328,6 +328,37 @@ theorem C07_usable_after_fallback {W : Type} (S : ServerEnv) (K : ClientEnv) (c 
   rw [(C07_fallback S K c norm dom law R kind e tb htb hun hres hctor hsend).1]
   exact C07_usable_after _ kind _ hcb hcomm hsec
 
+/-- **C07_usable_after_comm.**  A forwarded exception that is a CommunicationError on the caller's side (of the forwarded
+    classes: SerializeError) leaves the proxy usable although the server drops the connection after replying: raising
+    it inside `_pyroInvoke` releases the proxy's end, the next call reconnects.  (Two-call history: call 1 raises
+    SerializeError remotely, call 2 must get its own result.) -/
+theorem C07_usable_after_comm {W : Type} (S : ServerEnv) (K : ClientEnv) (c : Codec W) (norm : Val → Val)
+    (dom : Val → Prop) (law : CodecLaw c norm dom) (R : Render) (kind : CallKind) (e : Exc) (tb : Val)
+    (hcontent : Content norm dom e tb) (hres : resolves K.names e.cls = some e.cls)
+    (hctor : K.ctor e.cls e.args = .ok (e.cls, e.args)) (hsend : Sendable (S.info e.cls))
+    (hcomm : (K.info e.cls).isComm = true) :
+    usableAfter (clientCall S K c R kind (.raise e) tb) = true := by
+  rw [C07_roundtrip_partial S K c norm dom law R kind e tb hcontent hres hctor hsend]
+  simp [usableAfter, raisedBy, releases, withTraceback, hcomm]
+
+/-- **C07_stream_item_after_housekeeping.**  A housekeeping run between two items does not touch the stream of a
+    connected client that is younger than `ITER_STREAM_LIFETIME` (or when no lifetime is configured), whatever
+    `ITER_STREAM_LINGER` is: the next item's exception travels exactly as without the run (so `C07_roundtrip_partial`
+    applies to it). -/
+theorem C07_stream_item_after_housekeeping {W : Type} (S : ServerEnv) (K : ClientEnv) (c : Codec W) (R : Render)
+    (lifetime linger : Nat) (s : StreamAge) (step : Step) (tb : Val)
+    (hconn : s.lingering = none) (hyoung : lifetime = 0 ∨ s.age ≤ lifetime) :
+    streamItemCall S K c R lifetime linger s step tb = clientCall S K c R .streamItem step tb := by
+  have hs : streamSurvives lifetime linger s = true := by
+    unfold streamSurvives
+    rw [hconn]
+    rcases hyoung with h | h
+    · subst h; simp
+    · have : ¬ lifetime < s.age := by omega
+      simp [this]
+  unfold streamItemCall
+  rw [if_pos hs]
+
 /-- after a batch whose member raised, the connection is kept as well (second component of
     `C07_roundtrip_batch_partial` / `C07_fallback_batch`) -/
 theorem C07_usable_after_batch (o : ClientOut) : usableAfter (o, ConnFate.active) = true := by
@@ -585,6 +616,7 @@ theorem C07_gen_error_path_covers :
     `_pyroTraceback`, a non-empty list of str -/
 theorem C07_gen_other_kinds :
     Pyro.Gen.C07.otherKindsDecideAlike = true ∧ Pyro.Gen.C07.accessorErrorForwarded = true
+    ∧ Pyro.Gen.C07.youngStreamSurvivesHousekeeping = true
     ∧ Pyro.Gen.C07.forwardedIntact = true ∧ Pyro.Gen.C07.tracebackIsLines = true
     ∧ Pyro.Gen.C07.tracebackAttr.map String.toList = [kTraceback] := by decide
 
